@@ -20,6 +20,8 @@ package flyt
 
 // A2: retry settings are pure views during one run; budgets are >= 1.
 //@ axiom forall n Node :: cfgRetries(n) >= 1
+// A5/A6: a node handed to the framework is usable as a map key and is not a typed-nil builder pointer.
+//@ spec func okNode(n Node) bool = hashable(n) && (isType(n, *BatchNodeBuilder) ==> n.(*BatchNodeBuilder) != nil)
 
 //@ abstract Node.Prep(n, c, s) (v, e)
 //@   havoc user
@@ -39,8 +41,9 @@ package flyt
 // ---------------------------------------------------------------------------
 
 //@ func Run(ctx, node, shared) (act, err)
-//@   requires node != nil && ctx != nil
-//@   requires isType(node, *BatchNodeBuilder) ==> node.(*BatchNodeBuilder) != nil
+//@   requires node != nil && ctx != nil && okNode(node)
+//@   havoc user
+//@   ensures [C05] !isBatch(node) && old(cancelled) ==> callbacks == old(callbacks)
 //@   ghost ph int = 0; nExec int = 0; nFb int = 0; nPost int = 0
 //@   ghost pv any = nil; perr error = nil; lastRes any = nil; lastErr error = nil; attErr error = nil
 //@   ghost postAct Action = ""; postErr error = nil; lastEnd int = now
@@ -82,3 +85,386 @@ package flyt
 //@ func runBatch(ctx, node, shared) (act, err)
 //@   trusted
 //@   havoc user
+//@   ensures [C05] true
+
+// ---------------------------------------------------------------------------
+// Flows (C03 C04 C05 C10)
+// ---------------------------------------------------------------------------
+
+// Abstract view of the transition table: the node connected to (n, a), nil when absent.
+//@ spec func nextNode(f *Flow, n Node, a Action) Node = (has(f.transitions, n) && has(f.transitions[n], a)) ? f.transitions[n][a] : nil
+// Representation invariant: inner maps exist, are allocated and are not shared between source nodes.
+//@ spec func flowRep(f *Flow) bool = f.transitions != nil && okNode(f.start) && (forall n Node :: forall a Action :: okNode(nextNode(f, n, a))) && (forall n Node :: has(f.transitions, n) ==> allocated(f.transitions[n])) && (forall n1 Node :: forall n2 Node :: has(f.transitions, n1) && has(f.transitions, n2) && n1 != n2 ==> f.transitions[n1] != f.transitions[n2])
+
+//@ func NewFlow(start) (f)
+//@   requires okNode(start)
+//@   havoc user
+//@   ensures [C03] fresh(f) && f.start == start && flowRep(f)
+//@   ensures [C03] forall n Node :: !has(f.transitions, n)
+
+//@ func (*Flow).Connect(f, from, action, to) (r)
+//@   requires f != nil && flowRep(f) && okNode(from) && okNode(to)
+//@   assigns contents(f.transitions), contents(f.transitions[from])
+//@   havoc alloc
+//@   ensures [C03] r == f && flowRep(f) && f.start == old(f.start)
+//@   ensures [C03] forall n Node :: forall a Action :: nextNode(f, n, a) == ((n == from && a == action) ? to : old(nextNode(f, n, a)))
+
+//@ func (*Flow).Prep(f, ctx, shared) (v, err)
+//@   ensures [C10] err == nil && v == box(shared, *SharedStore)
+//@   ensures [C01,C05] callbacks == old(callbacks)
+
+//@ func (*Flow).Exec(f, ctx, prepResult) (res, err)
+//@   requires f != nil && ctx != nil && flowRep(f)
+//@   havoc user
+//@   ghost cur Node = f.start; last Action = ""; visits int = 0; failed bool = false; childErr error = nil
+//@   on call Run(c, n, s) returns (a, e)
+//@     requires [C03] n == cur && cur != nil
+//@     requires [C04] !failed
+//@     requires [C10] isType(prepResult, *SharedStore) && s == prepResult.(*SharedStore)
+//@     requires [C05] !cancelled
+//@     requires c == ctx
+//@     effect visits++; failed = e != nil; childErr = e; last = (e == nil ? a : last); cur = (e == nil ? nextNode(f, n, a) : cur)
+//@   loop 1 invariant !failed && !sawCancel && childErr == nil && visits >= 0 && okNode(cur)
+//@   loop 1 invariant [C05] cancelled@entry ==> callbacks == callbacks@entry && visits == 0
+//@   loop 1 invariant visits >= 1 || (cur == f.start && cur != nil)
+//@   ensures [C03] err == nil ==> cur == nil && visits >= 1
+//@   ensures [C10] err == nil ==> res == box(last, Action)
+//@   ensures [C04] failed ==> err == childErr && err != nil
+//@   ensures [C04] err == nil ==> !failed && isType(prepResult, *SharedStore) && f.start != nil
+//@   ensures [C05] sawCancel ==> err != nil && Is(err, ctxErr(ctx))
+//@   ensures [C05] cancelled@entry ==> callbacks == callbacks@entry && err != nil
+
+//@ func (*Flow).Post(f, ctx, shared, prepResult, execResult) (a, err)
+//@   ensures [C10] err == nil && (isType(execResult, Action) ==> a == execResult.(Action))
+//@   ensures [C10,C18] !isType(execResult, Action) ==> a == DefaultAction
+//@   ensures [C01,C05] callbacks == old(callbacks)
+
+// ---------------------------------------------------------------------------
+// Result helpers and BaseNode defaults (core: assumed by many proofs)
+// ---------------------------------------------------------------------------
+
+//@ spec func valueOf(r Result) any = r.err != nil ? nil : r.value
+// wrapAny: how an exec/prep outcome of type any is presented as a Result: a Result is passed through, anything else wrapped once.
+//@ spec func wrapAny(x any) Result = isType(x, Result) ? x.(Result) : Result{x, nil}
+
+//@ func NewResult(v) (r)
+//@   ensures r == Result{v, nil}
+//@ func NewErrorResult(e) (r)
+//@   ensures r == Result{nil, e}
+//@ func R(v) (r)
+//@   ensures r == Result{v, nil}
+//@ func Result.Value(r) (v)
+//@   ensures v == valueOf(r)
+//@ func Result.IsError(r) (b)
+//@   ensures b == (r.err != nil)
+//@ func Result.Error(r) (e)
+//@   ensures e == r.err
+//@ func Result.IsNil(r) (b)
+//@   ensures b == (r.value == nil)
+
+//@ func (*BaseNode).GetMaxRetries(n) (r)
+//@   requires n != nil
+//@   ensures r == n.maxRetries
+//@ func (*BaseNode).GetWait(n) (r)
+//@   requires n != nil
+//@   ensures r == n.wait
+//@ func (*BaseNode).GetBatchConcurrency(n) (r)
+//@   requires n != nil
+//@   ensures r == n.batchConcurrency
+//@ func (*BaseNode).GetBatchErrorHandling(n) (r)
+//@   requires n != nil
+//@   ensures [C19] r == (n.batchErrorHandling == "" ? "continue" : n.batchErrorHandling)
+//@ func (*BaseNode).Prep(n, ctx, shared) (v, err)
+//@   ensures v == nil && err == nil && callbacks == old(callbacks)
+//@ func (*BaseNode).Exec(n, ctx, p) (v, err)
+//@   ensures v == nil && err == nil && callbacks == old(callbacks)
+//@ func (*BaseNode).Post(n, ctx, shared, p, r) (a, err)
+//@   ensures a == DefaultAction && err == nil && callbacks == old(callbacks)
+//@ func (*BaseNode).ExecFallback(n, p, e) (v, err)
+//@   ensures v == nil && err == e && callbacks == old(callbacks)
+
+// ---------------------------------------------------------------------------
+// Configuration (C19): option form (composed: constructor, then application) and builder form
+// ---------------------------------------------------------------------------
+
+// documented defaults: one attempt, no wait, sequential batches, continue on errors ("" reads as "continue")
+//@ spec func baseDefaults(n *BaseNode) bool = n.maxRetries == 1 && n.wait == 0 && n.batchConcurrency == 0 && n.batchErrorHandling == ""
+//@ func NewBaseNode(opts) (n)
+//@   requires forall i int :: 0 <= i && i < len(opts) ==> opts[i] != nil
+//@   havoc user
+//@   ghost k int = 0
+//@   on call elem opts(fn, b)
+//@     requires [C19] fn == opts[k] && b == alloc(BaseNode, 1)
+//@     effect k++
+//@   loop 1 invariant 0 <= k && k <= len(opts)
+//@   loop 1 invariant [C19] k == 0 ==> baseDefaults(alloc(BaseNode, 1))
+//@   ensures [C19] fresh(n) && k == len(opts) && n == alloc(BaseNode, 1)
+//@   ensures [C19] len(opts) == 0 ==> baseDefaults(n)
+
+//@ func WithMaxRetries+call(retries, n) ()
+//@   requires n != nil
+//@   assigns [C19] n.maxRetries
+//@   ensures [C19] n.maxRetries == retries
+//@ func WithWait+call(wait, n) ()
+//@   requires n != nil
+//@   assigns [C19] n.wait
+//@   ensures [C19] n.wait == wait
+//@ func WithBatchConcurrency+call(c, n) ()
+//@   requires n != nil
+//@   assigns [C19] n.batchConcurrency
+//@   ensures [C19] n.batchConcurrency == c
+//@ func WithBatchErrorHandling+call(cont, n) ()
+//@   requires n != nil
+//@   assigns [C19] n.batchErrorHandling
+//@   ensures [C19] n.batchErrorHandling == (cont ? "continue" : "stop")
+
+//@ func (*NodeBuilder).WithMaxRetries(b, retries) (r)
+//@   requires b != nil && b.CustomNode != nil && b.CustomNode.BaseNode != nil
+//@   assigns [C19] b.CustomNode.BaseNode.maxRetries
+//@   ensures [C19] r == b && b.CustomNode.BaseNode.maxRetries == retries
+//@ func (*NodeBuilder).WithWait(b, wait) (r)
+//@   requires b != nil && b.CustomNode != nil && b.CustomNode.BaseNode != nil
+//@   assigns [C19] b.CustomNode.BaseNode.wait
+//@   ensures [C19] r == b && b.CustomNode.BaseNode.wait == wait
+//@ func (*NodeBuilder).WithBatchConcurrency(b, c) (r)
+//@   requires b != nil && b.CustomNode != nil && b.CustomNode.BaseNode != nil
+//@   assigns [C19] b.CustomNode.BaseNode.batchConcurrency
+//@   ensures [C19] r == b && b.CustomNode.BaseNode.batchConcurrency == c
+//@ func (*NodeBuilder).WithBatchErrorHandling(b, cont) (r)
+//@   requires b != nil && b.CustomNode != nil && b.CustomNode.BaseNode != nil
+//@   assigns [C19] b.CustomNode.BaseNode.batchErrorHandling
+//@   ensures [C19] r == b && b.CustomNode.BaseNode.batchErrorHandling == (cont ? "continue" : "stop")
+
+//@ func (*BatchNodeBuilder).WithMaxRetries(b, retries) (r)
+//@   requires b != nil && b.BatchNode != nil && b.BatchNode.CustomNode != nil && b.BatchNode.CustomNode.BaseNode != nil
+//@   assigns [C19] b.BatchNode.CustomNode.BaseNode.maxRetries
+//@   ensures [C19] r == b && b.BatchNode.CustomNode.BaseNode.maxRetries == retries
+//@ func (*BatchNodeBuilder).WithWait(b, wait) (r)
+//@   requires b != nil && b.BatchNode != nil && b.BatchNode.CustomNode != nil && b.BatchNode.CustomNode.BaseNode != nil
+//@   assigns [C19] b.BatchNode.CustomNode.BaseNode.wait
+//@   ensures [C19] r == b && b.BatchNode.CustomNode.BaseNode.wait == wait
+//@ func (*BatchNodeBuilder).WithBatchConcurrency(b, c) (r)
+//@   requires b != nil && b.BatchNode != nil && b.BatchNode.CustomNode != nil && b.BatchNode.CustomNode.BaseNode != nil
+//@   assigns [C19] b.BatchNode.CustomNode.BaseNode.batchConcurrency
+//@   ensures [C19] r == b && b.BatchNode.CustomNode.BaseNode.batchConcurrency == c
+//@ func (*BatchNodeBuilder).WithBatchErrorHandling(b, cont) (r)
+//@   requires b != nil && b.BatchNode != nil && b.BatchNode.CustomNode != nil && b.BatchNode.CustomNode.BaseNode != nil
+//@   assigns [C19] b.BatchNode.CustomNode.BaseNode.batchErrorHandling
+//@   ensures [C19] r == b && b.BatchNode.CustomNode.BaseNode.batchErrorHandling == (cont ? "continue" : "stop")
+
+// function settings: Result style stores the function itself
+//@ func WithPrepFunc+apply(fn, n) ()
+//@   requires n != nil
+//@   assigns [C19] n.prepFunc
+//@   ensures [C19] n.prepFunc == fn
+//@ func WithExecFunc+apply(fn, n) ()
+//@   requires n != nil
+//@   assigns [C19] n.execFunc
+//@   ensures [C19] n.execFunc == fn
+//@ func WithPostFunc+apply(fn, n) ()
+//@   requires n != nil
+//@   assigns [C19] n.postFunc
+//@   ensures [C19] n.postFunc == fn
+//@ func WithExecFallbackFunc+apply(fn, n) ()
+//@   requires n != nil
+//@   assigns [C19] n.execFallbackFunc
+//@   ensures [C19] n.execFallbackFunc == fn
+//@ func (*NodeBuilder).WithPrepFunc(b, fn) (r)
+//@   requires b != nil && b.CustomNode != nil
+//@   assigns [C19] b.CustomNode.prepFunc
+//@   ensures [C19] r == b && b.CustomNode.prepFunc == fn
+//@ func (*NodeBuilder).WithExecFunc(b, fn) (r)
+//@   requires b != nil && b.CustomNode != nil
+//@   assigns [C19] b.CustomNode.execFunc
+//@   ensures [C19] r == b && b.CustomNode.execFunc == fn
+//@ func (*NodeBuilder).WithPostFunc(b, fn) (r)
+//@   requires b != nil && b.CustomNode != nil
+//@   assigns [C19] b.CustomNode.postFunc
+//@   ensures [C19] r == b && b.CustomNode.postFunc == fn
+//@ func (*NodeBuilder).WithExecFallbackFunc(b, fn) (r)
+//@   requires b != nil && b.CustomNode != nil
+//@   assigns [C19] b.CustomNode.execFallbackFunc
+//@   ensures [C19] r == b && b.CustomNode.execFallbackFunc == fn
+
+// function settings: Any style installs the adapter closure bound to the given function
+//@ func WithPrepFuncAny+apply(fn, n) ()
+//@   requires n != nil
+//@   assigns [C19] n.prepFunc
+//@   ensures [C17,C19] isClosure(n.prepFunc, "WithPrepFuncAny$1$1") && *binding(n.prepFunc, "WithPrepFuncAny$1$1", 0) == fn
+//@ func WithExecFuncAny+apply(fn, n) ()
+//@   requires n != nil
+//@   assigns [C19] n.execFunc
+//@   ensures [C17,C19] isClosure(n.execFunc, "WithExecFuncAny$1$1") && *binding(n.execFunc, "WithExecFuncAny$1$1", 0) == fn
+//@ func WithPostFuncAny+apply(fn, n) ()
+//@   requires n != nil
+//@   assigns [C19] n.postFunc
+//@   ensures [C17,C19] isClosure(n.postFunc, "WithPostFuncAny$1$1") && *binding(n.postFunc, "WithPostFuncAny$1$1", 0) == fn
+//@ func (*NodeBuilder).WithPrepFuncAny(b, fn) (r)
+//@   requires b != nil && b.CustomNode != nil
+//@   assigns [C19] b.CustomNode.prepFunc
+//@   havoc alloc
+//@   ensures [C17,C19] r == b && isClosure(b.CustomNode.prepFunc, "(*NodeBuilder).WithPrepFuncAny$1") && *binding(b.CustomNode.prepFunc, "(*NodeBuilder).WithPrepFuncAny$1", 0) == fn
+//@ func (*NodeBuilder).WithExecFuncAny(b, fn) (r)
+//@   requires b != nil && b.CustomNode != nil
+//@   assigns [C19] b.CustomNode.execFunc
+//@   havoc alloc
+//@   ensures [C17,C19] r == b && isClosure(b.CustomNode.execFunc, "(*NodeBuilder).WithExecFuncAny$1") && *binding(b.CustomNode.execFunc, "(*NodeBuilder).WithExecFuncAny$1", 0) == fn
+//@ func (*NodeBuilder).WithPostFuncAny(b, fn) (r)
+//@   requires b != nil && b.CustomNode != nil
+//@   assigns [C19] b.CustomNode.postFunc
+//@   havoc alloc
+//@   ensures [C17,C19] r == b && isClosure(b.CustomNode.postFunc, "(*NodeBuilder).WithPostFuncAny$1") && *binding(b.CustomNode.postFunc, "(*NodeBuilder).WithPostFuncAny$1", 0) == fn
+
+// ---------------------------------------------------------------------------
+// Function-style nodes (C01 C04 C17): CustomNode calls the user function exactly once, threads values unchanged
+// ---------------------------------------------------------------------------
+
+//@ func (*CustomNode).Prep(n, ctx, shared) (v, err)
+//@   requires n != nil && n.BaseNode != nil
+//@   havoc user
+//@   ghost calls int = 0; ur Result = Result{nil, nil}; ue error = nil
+//@   on call field CustomNode.prepFunc(fn, c, s) returns (r, e)
+//@     requires [C01] calls == 0 && fn == n.prepFunc && c == ctx && s == shared
+//@     effect calls = 1; ur = r; ue = e
+//@   ensures [C01] old(n.prepFunc) != nil ==> calls == 1
+//@   ensures [C01] old(n.prepFunc) == nil ==> calls == 0 && v == nil && err == nil
+//@   ensures [C01,C17] calls == 1 && ue == nil ==> err == nil && v == valueOf(ur)
+//@   ensures [C01,C04] calls == 1 && ue != nil ==> err == ue && v == nil
+
+//@ func (*CustomNode).Exec(n, ctx, prepResult) (v, err)
+//@   requires n != nil && n.BaseNode != nil
+//@   havoc user
+//@   ghost calls int = 0; ur Result = Result{nil, nil}; ue error = nil
+//@   on call field CustomNode.execFunc(fn, c, p) returns (r, e)
+//@     requires [C01] calls == 0 && fn == n.execFunc && c == ctx
+//@     requires [C17] p == wrapAny(prepResult)
+//@     effect calls = 1; ur = r; ue = e
+//@   ensures [C01] old(n.execFunc) != nil ==> calls == 1
+//@   ensures [C01] old(n.execFunc) == nil ==> calls == 0 && v == nil && err == nil
+//@   ensures [C04] calls == 1 && ue != nil ==> err == ue && v == nil
+//@   ensures [C17] calls == 1 && ue == nil && !isType(ur.value, Result) ==> err == nil && wrapAny(v) == (ur.err != nil ? ur : Result{ur.value, nil})
+//@   ensures [C17] calls == 1 && ue == nil && ur.err == nil ==> v == ur.value
+
+//@ func (*CustomNode).Post(n, ctx, shared, prepResult, execResult) (a, err)
+//@   requires n != nil && n.BaseNode != nil
+//@   havoc user
+//@   ghost calls int = 0; ua Action = ""; ue error = nil
+//@   on call field CustomNode.postFunc(fn, c, s, p, r) returns (act, e)
+//@     requires [C01] calls == 0 && fn == n.postFunc && c == ctx && s == shared
+//@     requires [C17] !isType(prepResult, Result) ==> p == Result{prepResult, nil}
+//@     requires [C17] r == wrapAny(execResult)
+//@     effect calls = 1; ua = act; ue = e
+//@   ensures [C01] old(n.postFunc) != nil ==> calls == 1 && a == ua && err == ue
+//@   ensures [C01] old(n.postFunc) == nil ==> calls == 0 && a == DefaultAction && err == nil
+
+//@ func (*CustomNode).ExecFallback(n, prepResult, e0) (v, err)
+//@   requires n != nil && n.BaseNode != nil
+//@   havoc user
+//@   ghost calls int = 0; uv any = nil; ue error = nil
+//@   on call field CustomNode.execFallbackFunc(fn, p, e) returns (rv, re)
+//@     requires [C01,C02] calls == 0 && fn == n.execFallbackFunc && p == prepResult && e == e0
+//@     effect calls = 1; uv = rv; ue = re
+//@   ensures [C01,C02] old(n.execFallbackFunc) != nil ==> calls == 1 && v == uv && err == ue
+//@   ensures [C01,C02] old(n.execFallbackFunc) == nil ==> calls == 0 && v == nil && err == e0
+
+// NodeBuilder: pure delegation to the embedded CustomNode / BaseNode
+//@ func (*NodeBuilder).Prep(b, ctx, shared) (v, err)
+//@   requires b != nil && b.CustomNode != nil && b.CustomNode.BaseNode != nil
+//@   havoc user
+//@   ghost calls int = 0; dv any = nil; de error = nil
+//@   on call (*CustomNode).Prep(n, c, s) returns (rv, re)
+//@     requires [C01] calls == 0 && n == b.CustomNode && c == ctx && s == shared
+//@     effect calls = 1; dv = rv; de = re
+//@   ensures [C01,C17] calls == 1 && v == dv && err == de
+//@ func (*NodeBuilder).Exec(b, ctx, p) (v, err)
+//@   requires b != nil && b.CustomNode != nil && b.CustomNode.BaseNode != nil
+//@   havoc user
+//@   ghost calls int = 0; dv any = nil; de error = nil
+//@   on call (*CustomNode).Exec(n, c, pr) returns (rv, re)
+//@     requires [C01] calls == 0 && n == b.CustomNode && c == ctx && pr == p
+//@     effect calls = 1; dv = rv; de = re
+//@   ensures [C01,C17] calls == 1 && v == dv && err == de
+//@ func (*NodeBuilder).Post(b, ctx, shared, p, r) (a, err)
+//@   requires b != nil && b.CustomNode != nil && b.CustomNode.BaseNode != nil
+//@   havoc user
+//@   ghost calls int = 0; da Action = ""; de error = nil
+//@   on call (*CustomNode).Post(n, c, s, pr, er) returns (ra, re)
+//@     requires [C01] calls == 0 && n == b.CustomNode && c == ctx && s == shared && pr == p && er == r
+//@     effect calls = 1; da = ra; de = re
+//@   ensures [C01,C17] calls == 1 && a == da && err == de
+//@ func (*NodeBuilder).ExecFallback(b, p, e0) (v, err)
+//@   requires b != nil && b.CustomNode != nil && b.CustomNode.BaseNode != nil
+//@   havoc user
+//@   ghost calls int = 0; dv any = nil; de error = nil
+//@   on call (*CustomNode).ExecFallback(n, pr, e) returns (rv, re)
+//@     requires [C01,C02] calls == 0 && n == b.CustomNode && pr == p && e == e0
+//@     effect calls = 1; dv = rv; de = re
+//@   ensures [C01,C02] calls == 1 && v == dv && err == de
+//@ func (*NodeBuilder).GetMaxRetries(b) (r)
+//@   requires b != nil && b.CustomNode != nil && b.CustomNode.BaseNode != nil
+//@   ensures [C02,C19] r == b.CustomNode.BaseNode.maxRetries
+//@ func (*NodeBuilder).GetWait(b) (r)
+//@   requires b != nil && b.CustomNode != nil && b.CustomNode.BaseNode != nil
+//@   ensures [C20,C19] r == b.CustomNode.BaseNode.wait
+
+// Any-style adapters, option form and builder form: identical contracts (C17)
+//@ func WithPrepFuncAny$1$1(ctx, shared) (r, err)
+//@   requires *fn != nil
+//@   havoc user
+//@   ghost calls int = 0; uv any = nil; ue error = nil
+//@   on call var fn(f, c, s) returns (v, e)
+//@     requires [C17] calls == 0 && f == *fn && c == ctx && s == shared
+//@     effect calls = 1; uv = v; ue = e
+//@   ensures [C17] calls == 1 && (ue != nil ==> err == ue) && (ue == nil ==> err == nil && r == Result{uv, nil})
+//@ func (*NodeBuilder).WithPrepFuncAny$1(ctx, shared) (r, err)
+//@   requires *fn != nil
+//@   havoc user
+//@   ghost calls int = 0; uv any = nil; ue error = nil
+//@   on call var fn(f, c, s) returns (v, e)
+//@     requires [C17] calls == 0 && f == *fn && c == ctx && s == shared
+//@     effect calls = 1; uv = v; ue = e
+//@   ensures [C17] calls == 1 && (ue != nil ==> err == ue) && (ue == nil ==> err == nil && r == Result{uv, nil})
+//@ func WithExecFuncAny$1$1(ctx, prepResult) (r, err)
+//@   requires *fn != nil
+//@   havoc user
+//@   ghost calls int = 0; uv any = nil; ue error = nil
+//@   on call var fn(f, c, p) returns (v, e)
+//@     requires [C17] calls == 0 && f == *fn && c == ctx && p == valueOf(prepResult)
+//@     effect calls = 1; uv = v; ue = e
+//@   ensures [C17] calls == 1 && (ue != nil ==> err == ue) && (ue == nil ==> err == nil && r == Result{uv, nil})
+//@ func (*NodeBuilder).WithExecFuncAny$1(ctx, prepResult) (r, err)
+//@   requires *fn != nil
+//@   havoc user
+//@   ghost calls int = 0; uv any = nil; ue error = nil
+//@   on call var fn(f, c, p) returns (v, e)
+//@     requires [C17] calls == 0 && f == *fn && c == ctx && p == valueOf(prepResult)
+//@     effect calls = 1; uv = v; ue = e
+//@   ensures [C17] calls == 1 && (ue != nil ==> err == ue) && (ue == nil ==> err == nil && r == Result{uv, nil})
+//@ func (*BatchNodeBuilder).WithExecFuncAny$1(ctx, prepResult) (r, err)
+//@   requires *fn != nil
+//@   havoc user
+//@   ghost calls int = 0; uv any = nil; ue error = nil
+//@   on call var fn(f, c, p) returns (v, e)
+//@     requires [C17] calls == 0 && f == *fn && c == ctx && p == valueOf(prepResult)
+//@     effect calls = 1; uv = v; ue = e
+//@   ensures [C17] calls == 1 && (ue != nil ==> err == ue) && (ue == nil ==> err == nil && r == Result{uv, nil})
+// An Any-style post observes the payload: the value, or the error result itself when exec produced an error result.
+//@ spec func anyView(r Result) any = r.err != nil ? box(r, Result) : r.value
+//@ func WithPostFuncAny$1$1(ctx, shared, prepResult, execResult) (a, err)
+//@   requires *fn != nil
+//@   havoc user
+//@   ghost calls int = 0; ua Action = ""; ue error = nil
+//@   on call var fn(f, c, s, p, x) returns (act, e)
+//@     requires [C17] calls == 0 && f == *fn && c == ctx && s == shared && p == valueOf(prepResult)
+//@     requires [C17] x == anyView(execResult)
+//@     effect calls = 1; ua = act; ue = e
+//@   ensures [C17] calls == 1 && a == ua && err == ue
+//@ func (*NodeBuilder).WithPostFuncAny$1(ctx, shared, prepResult, execResult) (a, err)
+//@   requires *fn != nil
+//@   havoc user
+//@   ghost calls int = 0; ua Action = ""; ue error = nil
+//@   on call var fn(f, c, s, p, x) returns (act, e)
+//@     requires [C17] calls == 0 && f == *fn && c == ctx && s == shared && p == valueOf(prepResult)
+//@     requires [C17] x == anyView(execResult)
+//@     effect calls = 1; ua = act; ue = e
+//@   ensures [C17] calls == 1 && a == ua && err == ue
